@@ -10,37 +10,37 @@ claimed = {
          "Exact-arithmetic (Real) semantics of the SSA with margin 1e-9; assumes the SOIL domain; day composition and sub-step count are separate obligations (see DESIGN).", "§6 C01"),
  "C02": ("One call of the real nmove routine from an arbitrary symbolic state: per-layer update law with the three clamps, telescoping dispersion, convection = bottom + drain loss, uptake clamp and counters; the daily balance follows by linear arithmetic (DESIGN §6 C02). Flux sign patterns are enumerated exhaustively for n<=3.",
          "Real arithmetic, exp uninterpreted (>0); FLUX pre-conditions are the post-conditions proved for Water under C01; leaching depth at profile bottom.", "§6 C02"),
- "C06": ("One Water step from an arbitrary state: every layer's new water content <= field capacity + the largest tabulated capillary-rise increment and >= one third of the wilting point when it started there; no division by zero; Init establishes the water state and W = PORGES below the groundwater table.",
+ "C06": ("One Water step from an arbitrary state: every layer's new water content <= field capacity + the largest tabulated capillary-rise increment and >= one third of the wilting point when it started there; no division by zero; Init establishes the water state and W = PORGES below the groundwater table. Potential ET of all five methods free of division by zero / out-of-domain calls; a reachable one is replayed natively and reported when an observed value is NaN/Inf (methods 3/4 at two latitudes x two solstices incl. a day without sunrise).",
          "Real arithmetic; later sub-steps assume the sub-step uptake fits the water above the dryness limit (invariant set up by the first sub-step's clamp).", "§6 C06"),
- "C07": ("One call of mineral (1-3 layers, frozen and warm branch) and of nmove (first / later sub-step): pool + mineralised counter constant per layer, pools and counters non-negative/monotone, dissolved <= applied, source term equals counter changes, uptake and fixation credited on the first sub-step only.",
+ "C07": ("One call of mineral (1-3 layers, frozen and warm branch) and of nmove (first / later sub-step): pool + mineralised counter constant per layer, pools and counters non-negative/monotone, dissolved <= applied, source term equals counter changes, uptake and fixation credited on the first sub-step only. Tillage mixing for every depth of the mineralisation zone; daily fixation >= 0 and the amount handed to the transport routine is today's fixation (legume or not, whatever the previous day left).",
          "Real arithmetic; exp uninterpreted with natively evaluated lemma points at 60.5 C and monotonicity; NSTATE invariant assumed at entry and re-established.", "§6 C07"),
- "C15": ("PTF1-3 ordering over all admissible texture triples, calcWRed strictly between WP and FC, setFieldCapacityWithGW (W = PORGES below the table, untouched above).",
+ "C15": ("PTF1-3 ordering over all admissible texture triples, calcWRed strictly between WP and FC, setFieldCapacityWithGW (W = PORGES below the table, untouched above). PTF route of Input (lifted): threshold between WP and FC, and the layer gets exactly the values of the selected transfer function called with its own arguments (all four functions); groundwater-change block restores from the backups.",
          "Real arithmetic; PTF4 is not decided (outside the claim).", "§6 C15"),
- "C19": ("Soiltemp cut by the region lifter into prefix / one hourly iteration / suffix (verbatim source): diffusion number in [0,1/2] for all admissible BD, humus, water contents; one explicit step keeps every layer inside the envelope [lo,hi] of the previous profile and the boundary values (inductive step, any of the 24 iterations); daily means stay inside.",
+ "C19": ("Soiltemp cut by the region lifter into prefix / one hourly iteration / suffix (verbatim source): diffusion number in [0,1/2] for all admissible BD, humus, water contents; one explicit step keeps every layer inside the envelope [lo,hi] of the previous profile and the boundary values (inductive step, any of the 24 iterations); daily means stay inside. Additionally the whole routine (not cut) on the 4^n corner soils with all temperatures symbolic (linear): every layer temperature and daily mean inside the envelope; stone content and horizons symbolic in the prefix.",
          "Real arithmetic, exp/pow uninterpreted with range axioms; induction over the 24 iterations and over days is by the partition of the function body (lifter) and the stated invariant.", "§6 C19"),
- "C20": ("GetGroundWaterLevel on a symbolic ascending series of k<=3 (thorough 5) timestamps: exact hit, linear interpolation within neighbours, nearest value outside, no error for a non-empty series.",
+ "C20": ("GetGroundWaterLevel on a symbolic ascending series of k<=3 (thorough 5) timestamps: exact hit, linear interpolation within neighbours, nearest value outside, no error for a non-empty series. The series reader on token files (one support point per record in file order, also for equal consecutive levels; level on a given date = series value); polygon min/max set-up and daily level inside [min,max].",
          "Real/Int arithmetic; map with symbolic keys modelled as association list with presence conditions.", "§6 C20"),
  "C12": ("The real DateConverter / KalenderConverter / KalenderDate closures executed symbolically over the whole domain (day numbers 1..72684, all valid date texts as symbolic digit bytes, 4 formats x separators, century split symbolic): number->text->number and text->number->text round trips, successor law, day-of-year, leap years, calendar validity.",
          "Integer (Int) arithmetic with every int64 overflow proved absent as side obligation; fmt.Sprintf/strconv modelled at digit level (stubs listed in evidence).", "§6 C12"),
  "C17": ("main() of calcHermesBatch executed symbolically with the file reader replaced by an arbitrary line count: for every line count >= nodes (nodes 1..16 quick, 64 thorough) and every enumerated count below, the printed ranges are as many as the reported size, contiguous from 1 and end at the last line; lineCounter equals the simulator's executed-line count for all byte buffers up to 4 (thorough 6) bytes in one or two chunks.",
          "Int arithmetic; printed text modelled as segments (literal text + decimal rendering of an int term); hermes2go's -lines dispatch (goroutines) not encoded.", "§6 C17"),
- "C04": ("transformWeatherData, replaceMissingValues and LoadYear executed symbolically on 1-3 years of T<=3 days with every value (and the sentinel) symbolic: mm->cm with correction, PAR = half radiation, wind floor on every day, gap = mean of the calendar-adjacent days also across the year change, present values untouched, year lookup copies exactly the requested year or returns an error.",
+ "C04": ("transformWeatherData, replaceMissingValues and LoadYear executed symbolically on 1-3 years of T<=3 days with every value (and the sentinel) symbolic: mm->cm with correction, PAR = half radiation, wind floor on every day, gap = mean of the calendar-adjacent days also across the year change, present values untouched, year lookup copies exactly the requested year or returns an error. The three file readers executed on token files (multi-year CSV, day-of-year, yearly; date scenarios across leap years, gaps, repeated days => error), two yearly files in turn, the first day of a new year after a leap-year change, and a 'no value' in an optional column filled by the mean of the adjacent days in every layout.",
          "Real arithmetic; year length shrunk (routines parametric in MaxYearDays); the three file readers' text handling and the discarded LoadYear error at the call sites are outside this check (see DESIGN).", "§6 C04"),
  "C03": ("Reduced to the one shared mutable object of a session: FilePool.Get executed symbolically from arbitrary cache states returns the content of exactly the requested path, keeps the cache invariant, touches the cache only while the ghost mutex flag is set and releases it. Race freedom on this object follows by the lockset argument; everything quantified over goroutine schedules is outside.",
          "os.ReadFile stubbed as a function of the path; sync.Mutex as ghost flag; no interleavings are explored (not encodable with this technique).", "A3 C03"),
  "C05": ("Regions of the day loop lifted verbatim: daily record iff interval day, yearly record iff day-of-year equals OUTDAY (with counter reset), exactly one crop record per finished cycle over k<=4 sub-steps, and the day on which the yearly record falls against the configured date in every simulated year (open known finding).",
          "WriteLine stubbed and counted; Water/PhytoOut/Nitro stubbed in the sub-step loop (interpreter replay); field counts per column kind and whole-run record counts are outside.", "A3 C05"),
- "C08": ("Potential ET cap/non-negativity for ET methods 1,2,5 (crop branch), activity factors, and the uptake distribution/redistribution of Evatra (lifted regions) for n<=3 layers with share abstraction: uptake >= 0, none below roots or groundwater, sum <= potential transpiration, actual <= potential ET, stress ratios in [0,1]; daily uptake <= plant-available water over k sub-steps.",
+ "C08": ("Potential ET cap/non-negativity for ET methods 1,2,5 (crop branch), activity factors, and the uptake distribution/redistribution of Evatra (lifted regions) for n<=3 layers with share abstraction: uptake >= 0, none below roots or groundwater, sum <= potential transpiration, actual <= potential ET, stress ratios in [0,1]; daily uptake <= plant-available water over k sub-steps. ET methods 3 and 4 with symbolic weather at four concrete (latitude, day) pairs: reference ET >= 0, potential ET in [0, 0.65].",
          "Real arithmetic; quotient shares abstracted by share variables with linear lemmas plus defining equations; methods 3/4 and the bare-soil branch outside.", "A3 C08"),
- "C10": ("One-step induction of the fertiliser, irrigation and tillage cursors (lifted from Nitro/Run), the same-day shift loops and the fertiliser table split (lifted from Input/dueng) for k<=4 events with symbolic dates and amounts.",
-         "Event-log writers stubbed; schedule file readers and pre-start drop outside.", "A3 C10"),
- "C11": ("Reduced to termination of the fertiliser-prediction day-length search: for every latitude in [49.2,65] N day 150 is longer than 14 h and day 172 longer than 16 h (uninterpreted sin/cos/asin with natively evaluated lemma points), the real loops at 45/50/55/60 degrees; non-termination below ~48.6 degrees is an open known finding. Isolation of concurrent runs is outside (schedules).",
-         "Trigonometric functions uninterpreted with monotonicity and lemma points; concrete-latitude runs are interpreter runs of the real closure.", "A3 C11"),
- "C16": ("Automatic irrigation and automatic sowing blocks of the day loop lifted verbatim: irrigation only after sowing, within the stage window, at most the daily maximum; sowing inside the window, after the previous harvest, forced on the window's last day (inductive invariant).",
+ "C10": ("One-step induction of the fertiliser, irrigation and tillage cursors (lifted from Nitro/Run), the same-day shift loops and the fertiliser table split (lifted from Input/dueng) for k<=4 events with symbolic dates and amounts. Schedule file readers (fertiliser, tillage, irrigation, rotation part of Input) executed on token files: pre-start events dropped, others kept in order, dates strictly ascending, never early, at most one day late.",
+         "Event-log writers stubbed; schedule file readers and pre-start drop outside. Schedule readers are regions of Input with Session.Open replaced by a scanner over harness lines (natively real files).", "A3 C10"),
+ "C11": ("Reduced to termination of the fertiliser-prediction day-length search: for every latitude in [49.2,65] N day 150 is longer than 14 h and day 172 longer than 16 h (uninterpreted sin/cos/asin with natively evaluated lemma points), the real loops at 45/50/55/60 degrees; non-termination below ~48.6 degrees is an open known finding. Isolation of concurrent runs is outside (schedules). The real doConcurrentBatchRun under a sequential select abstraction (every arrival order of results and log messages, 1-3 lines x 1-2 slots): every line started exactly once, every result collected, error count = failed results, the summary lists every failed run exactly once and no successful one, no deadlock.",
+         "Trigonometric functions uninterpreted with monotonicity and lemma points; concrete-latitude runs are interpreter runs of the real closure. Goroutine schedules beyond the select abstraction are outside.", "A3 C11"),
+ "C16": ("Automatic irrigation and automatic sowing blocks of the day loop lifted verbatim: irrigation only after sowing, within the stage window, at most the daily maximum; sowing inside the window, after the previous harvest, forced on the window's last day (inductive invariant). Automatic harvest (today, not later than the latest date, forced the day before it), all six automatic N sites >= 0, and the rotation part of Input on token files (crops in file order, dates of the file).",
          "Real/Int arithmetic; automatic harvest, automatic N and the crop switch are outside.", "A3 C16"),
- "C18": ("Assignment part of ReadCropParamYml lifted; for every overridable base, stage and partition parameter: state after file+override equals state after reading the edited parameter set, or equals the no-override state (rejected as a whole).",
+ "C18": ("Assignment part of ReadCropParamYml lifted; for every overridable base, stage and partition parameter: state after file+override equals state after reading the edited parameter set, or equals the no-override state (rejected as a whole). The comparison covers every field of both state structs (deep comparison, so quantities derived at read time are included); an override leaves every other crop file alone and is applied to the addressed file in any directory.",
          "yaml.Unmarshal replaced by an arbitrary parameter set with 2 organs x 2 stages; 'results' reduced to the parameter state handed to the crop model.", "A3 C18"),
- "C13": ("Paired readers executed on the same content in both encodings, with every number symbolic (numeric tokens or symbolic decimal digits): the three weather layouts give the same year in the run state after LoadYear (daily values, year length, station and wind height); soil profile text vs CSV give the same SoilFileData (any CSV column order); measured initial values text vs CSV give the same initial water/N state (both header spellings, methods 1-3); rotation text vs CSV resolve every column to the same field text; a classic crop parameter file read directly and read through the shipped converter plus the YAML reader's assignment part gives the same crop state; a date in the four formats gives the same day number.",
+ "C13": ("Paired readers executed on the same content in both encodings, with every number symbolic (numeric tokens or symbolic decimal digits): the three weather layouts give the same year in the run state after LoadYear (daily values, year length, station and wind height); soil profile text vs CSV give the same SoilFileData (any CSV column order); measured initial values text vs CSV give the same initial water/N state (both header spellings, methods 1-3); rotation text vs CSV resolve every column to the same field text; a classic crop parameter file read directly and read through the shipped converter plus the YAML reader's assignment part gives the same crop state; a date in the four formats gives the same day number. Crop parameter readers are compared in every field of the run and crop state (deep comparison) from an arbitrary state of the previous crop; a 'no value' in an optional weather column is filled identically in every layout.",
          "bufio.Scanner / time.Parse / Session.Open are executor models (line lists stand for files; natively the real files are written and read by the real code); the YAML text between converter and reader (yaml.Marshal/Unmarshal) is taken as the identity; 'byte-identical results' is reduced to 'identical state handed to the model'.", "A3 C13"),
  "C14": ("readConfig / commandlineOverride (real code) executed symbolically with every scalar key of Config present or absent on the batch line under its own symbolic boolean and with a symbolic value, a configuration file that exists or not and sets an arbitrary subset of the keys to arbitrary values, and a key that does not exist: for every key the effective value (and the run state derived from it) is the batch-line value, else the file value, else the default; ascending and descending map iteration order; token loop of Run lifted: key=value tokens in 16 orders with symbolic digits give the value used.",
          "reflect is the executor's own model of the subset used (DESIGN A1); yaml.Unmarshal is replaced by a harness model that writes the planned keys through reflect and the real UnmarshalYAML methods; co-simulated against the real yaml/reflect libraries on solver models; string keys from four candidate families.", "A3 C14"),
